@@ -180,7 +180,69 @@ def spell(rnd: random.Random, loc: str, is_dir: bool, rules) -> str:
         s = escape_again(rnd, s)
     elif k < 0.17:
         s = with_params(rnd, s, rules)
+    elif k < 0.21:
+        s = with_delims(rnd, s, rules)
+    # the path of a request ends at the FIRST '?': whatever follows (further '?', '/', dot segments, names of public
+    # areas, escapes of all of these) is the query and says nothing about which resource is meant
+    if "?" not in s and "#" not in s and rnd.random() < 0.14:
+        s += "?" + query_text(rnd, s, rules)
     return s
+
+
+QLEAD = ["", "", "", "q=", "next=", "x=1&next=", "é=", "redirect=", "q=what?&p=", "a;b="]
+QUPS = ["..", "..", "..", "..", "%2e%2e", ".%2E", "%2E%2e"]
+QEND = ["?", "?", "?", "?x", "?q=1", "??", "", "", "%3f", "%3F", "&y=?", "?/", "?;p=1", "?.", "/?", "/.?"]
+QPLAIN = ["q=1", "what?", "a?b?c", "?", "??", "???x", "a/b", "/", "//", "/?", "?/", "%3f", "%3F%2F..", "q=%2e%2e", "é", "a;b=c", ";", ":@!$&'()*+,=",
+          "/..", "/../", "/../..", "/../../", "..", "?/../..", "/../..?", "/../../?", "?/../../?", "%2f..%2f..%3f", "/%2e%2e/%2e%2e/?"]
+
+
+def query_text(rnd: random.Random, path: str, rules) -> str:
+    """the text of a query (without its leading '?') for a request whose path is spelled `path`: free text, or a walk
+    `<text>/../../<somewhere else>` as deep as the path (or deeper, or less deep) that ends at a place with other rules - the
+    root, a rule's prefix, a public-looking directory, the parent directories of the resource - followed or not by another
+    '?'; literally or with '/', '.', '?' escaped"""
+    if rnd.random() < 0.2:
+        return rnd.choice(QPLAIN)
+    own = [p for p in _cut(path)[0].split("/") if p]
+    depth = len(own)
+    targets = ["/", "/", "", "/pub/", "/public/", "/zz/", "/index.gmi", "/app/public/"]
+    targets += [r[0] if r[0].startswith("/") else "/" + r[0] for r in (rules or [])][:6]
+    targets += ["/" + "/".join(own[:i]) + "/" for i in range(1, depth) if "%" not in "".join(own[:i]) and ".." not in own[:i]]
+    n = rnd.choice([depth, depth, depth, depth + 1, depth + 2, max(0, depth - 1), 1, 2, rnd.randint(0, 5)])
+    q = rnd.choice(QLEAD) + "".join("/" + rnd.choice(QUPS) for _ in range(n)) + rnd.choice(targets)
+    k = rnd.random()
+    if k < 0.12:
+        q = q.replace("/", rnd.choice(["%2f", "%2F"]))
+    elif k < 0.18:
+        q = q.replace("..", rnd.choice(["%2e%2e", ".%2e"]))
+    elif k < 0.22:
+        q = q.replace("/", "//")
+    return q + rnd.choice(QEND)
+
+
+DELIMS = ["%3f", "%3F", "%3f", "%23", "%3b", "%3B", "%3f%3f", "%26", "%3d"]
+DTEXT = ["", "", "q=1", "x", "next=", "..", ".", "%3f", "v=2;x", "q%3dwhat%3f"]
+
+
+def with_delims(rnd: random.Random, s: str, rules) -> str:
+    """ESCAPED delimiters ('%3f' is a question mark that belongs to a NAME, not the start of the query; likewise '%23',
+    '%3b', …) in segments in front of the ones that name the resource: `<name>%3f<text>/..` is one segment and its
+    cancellation, at any depth; or on the resource's own last segment (which then denotes another name)"""
+    path, rest = _cut(s)
+    parts = path.split("/")[1:]
+    names = ["pub", "public", "app", "zz", "", "index.gmi"] + [p for r in (rules or []) for p in r[0].split("/") if p][:6] + [p for p in parts if p not in ("", ".", "..")]
+    up = rnd.choice(["..", "..", "..", "%2e%2e", ".%2E"])
+    seg = rnd.choice(names) + rnd.choice(DELIMS) + rnd.choice(DTEXT)
+    k = rnd.random()
+    if k < 0.65:
+        i = rnd.randint(0, max(0, len(parts) - 1))
+        parts = parts[:i] + [seg, up] + parts[i:]
+    elif k < 0.85:
+        i = rnd.randint(0, max(0, len(parts) - 1))
+        parts = parts[:i] + [seg, rnd.choice(names), up, up] + parts[i:]
+    else:
+        parts[-1] += rnd.choice(DELIMS) + rnd.choice(DTEXT)
+    return "/" + "/".join(parts) + rest
 
 
 def _cut(s: str):
@@ -868,8 +930,11 @@ class MwOnly(Family):
             p = rng.choice(self.PATHS)
             if rng.random() < 0.3:
                 p = spell(rng, p, p.endswith("/"), rules)
-            if rng.random() < 0.1:
+            k = rng.random()
+            if k < 0.06:
                 p += rng.choice(["?q", "?x=/../y"])
+            elif k < 0.22:
+                p += "?" + query_text(rng, p, rules)       # (after a '?' or '#' of the spelling itself, now and then)
             yield {"rules": rules, "path": p, "cid": rng.choice([None, None, 1, 2, 3]), "titan": rng.random() < 0.05}
 
     def impl(self, case):
@@ -904,10 +969,23 @@ class MwOnly(Family):
     def oracle(self, case, obs):
         if obs in ("60", "61") and (obs == "60") != (case["cid"] is None):
             return ("wrong-refusal-status", f"rules {case['rules']}; path {case['path']!r}; certificate {case['cid']} -> {obs}")
+        # the request is let through although the first rule that covers the canonical location its PATH denotes (the
+        # part of the URL before the first '?'; for Titan before the first ';') does not admit the certificate: whatever
+        # resource a handler keeps at that location - a file of that name, the listing of that directory - is delivered
+        u = T.url_path(case["path"])
+        if u[0] == "ok" and obs == "allow":
+            path = (u[1].split(";", 1)[0] or "/") if case["titan"] else u[1]
+            canon = T.ref_canonical(path)
+            d = ref_policy(case["rules"], canon, case["cid"])
+            if d is not None:
+                return ("rule-bypassed", f"CertificateAuth alone: rules {case['rules']}; {'Titan' if case['titan'] else 'Gemini'} request {case['path']!r} with "
+                                         f"{'no certificate' if case['cid'] is None else 'certificate %d' % case['cid']} is let through; its path denotes the canonical "
+                                         f"location {canon!r}, covered first by rule {covering(case['rules'], canon)}, which requires {d}")
         return None
 
     def key(self, case, obs):
-        return f"{obs}:rules={len(case['rules'])}:cert={'y' if case['cid'] else 'n'}" + (":titan" if case["titan"] else "")
+        q = case["path"].partition("?")[2]
+        return f"{obs}:rules={len(case['rules'])}:cert={'y' if case['cid'] else 'n'}" + (":titan" if case["titan"] else "") + (":q?" if "?" in q else ":q" if q else "")
 
 
 class PumpCert(Family):
